@@ -203,9 +203,43 @@ var apiOps = []apiOp{
 		p, err := h.descend(d)
 		return pev(fmt.Sprintf("descent:members=%d,maxdepth=%d", h.members, h.max), p, err)
 	}},
+	{name: "StdLibCompatibleTreeHot", usesPool: true, run: func(x *opCtx, d []byte) Outcome {
+		// the helper in a hot loop on one decoded tree, every result looked at the moment it is returned:
+		// a pure function must return the same complete tree every time, also while other goroutines do the same
+		v, p, err := rjson.ReadValue(d)
+		collide := false
+		sanitizeTree(v, &collide)
+		if err != nil || collide {
+			return pev(nil, p, err)
+		}
+		conv := func() interface{} {
+			switch t := v.(type) {
+			case map[string]interface{}:
+				return rjson.StdLibCompatibleMap(t)
+			case []interface{}:
+				return rjson.StdLibCompatibleSlice(t)
+			}
+			return v
+		}
+		want := sanitizeTree(v, &collide) // what the helper is specified to return (C17), computed by the harness
+		for i := 0; i < 16; i++ {
+			if got := conv(); !eqVal(got, want) {
+				return pev(fmt.Sprintf("call %d of 16 returned a tree that is not (yet?) the complete converted tree", i), p, nil)
+			}
+		}
+		return pev("16 calls, 16 complete results", p, nil)
+	}},
 	{name: "StdLibCompatibleTree", usesPool: true, run: func(x *opCtx, d []byte) Outcome {
 		v, p, err := rjson.ReadValue(d)
 		x.srcTree = v // the argument of the helper: the caller still owns it
+		// When two keys of one object become equal after U+FFFD replacement, which value survives is
+		// decided by Go's map iteration order - C17 excludes that case by name, and no other property says
+		// anything about it. The outcome of such a call is therefore reduced to what IS determined.
+		collide := false
+		sanitizeTree(v, &collide)
+		if collide {
+			return pev("StdLibCompatible helpers: keys collide after replacement (result is iteration-order dependent by definition)", p, err)
+		}
 		switch t := v.(type) {
 		case map[string]interface{}:
 			return pev(rjson.StdLibCompatibleMap(t), p, err)
